@@ -351,3 +351,64 @@ pub fn components() -> Value {
         "not_exercised": ["StdIoWrapper", "ChronoTimeProvider / chrono conversions", "log back end"]
     })
 }
+
+/// Run the same batches in a binary compiled with another feature set (C17 fixed-buffer build, C19) and fold
+/// its summary into one RunOutcome. `sub` is the child's sub-command.
+pub fn child_outcome(bin: &str, args: &[String], tag: &str) -> RunOutcome {
+    let mut o = RunOutcome::empty();
+    o.evaluations = 0;
+    let out = std::process::Command::new(bin).args(args).output();
+    let out = match out {
+        Ok(o) => o,
+        Err(e) => {
+            let v = Violation { property: "HARNESS".into(), class: "child-binary-missing".into(), detail: format!("{}: {}", bin, e), step: 0 };
+            o.violation = Some((v.clone(), Replay { property: "HARNESS".into(), kind: "child".into(), seed: 0, cfg: crate::c06::dummy_cfg(), steps: vec![], violation: Some(v) }));
+            return o;
+        }
+    };
+    let txt = String::from_utf8_lossy(&out.stdout);
+    let line = txt.lines().rev().find(|l| l.starts_with("CHILD-SUMMARY "));
+    let Some(line) = line else {
+        let v = Violation { property: "HARNESS".into(), class: "child-output-unreadable".into(), detail: format!("{} exited with {:?}: {}", bin, out.status.code(), txt.chars().take(400).collect::<String>()), step: 0 };
+        o.violation = Some((v.clone(), Replay { property: "HARNESS".into(), kind: "child".into(), seed: 0, cfg: crate::c06::dummy_cfg(), steps: vec![], violation: Some(v) }));
+        return o;
+    };
+    let v: Value = serde_json::from_str(&line["CHILD-SUMMARY ".len()..]).unwrap_or(Value::Null);
+    o.evaluations = v["evaluations"].as_u64().unwrap_or(0);
+    o.counters.insert(format!("{}:evaluations", tag), o.evaluations);
+    o.counters.insert(format!("{}:distinct", tag), v["distinct"].as_u64().unwrap_or(0));
+    o.counters.insert(format!("{}:runs", tag), v["runs"].as_u64().unwrap_or(0));
+    if let Some(c) = v["counters"].as_object() {
+        for (k, x) in c {
+            o.counters.insert(format!("{}:{}", tag, k), x.as_u64().unwrap_or(0));
+        }
+    }
+    if let Some(arr) = v["violations"].as_array() {
+        if let Some(first) = arr.first() {
+            let viol: Violation = serde_json::from_value(first["violation"].clone()).unwrap_or(Violation { property: "HARNESS".into(), class: "child-violation-unreadable".into(), detail: first.to_string(), step: 0 });
+            let mut rep: Replay = serde_json::from_value(first["replay"].clone()).unwrap_or(Replay { property: viol.property.clone(), kind: "child".into(), seed: 0, cfg: crate::c06::dummy_cfg(), steps: vec![], violation: Some(viol.clone()) });
+            rep.kind = format!("{}@{}", rep.kind, tag);
+            let mut viol = viol;
+            viol.detail = format!("[{} build] {}", tag, viol.detail);
+            rep.violation = Some(viol.clone());
+            o.violation = Some((viol, rep));
+        }
+    }
+    o
+}
+
+/// child side: run batches, print the summary line
+pub fn child_main(batches: Vec<Batch>) {
+    let mut agg = Agg::default();
+    run_batches(batches, &mut agg);
+    let viols: Vec<Value> = agg.violations.iter().take(3).map(|(v, r)| json!({"violation": v, "replay": r})).collect();
+    let distinct = agg.distinct.len().max(agg.states.len());
+    println!("CHILD-SUMMARY {}", json!({"evaluations": agg.evaluations, "distinct": distinct, "runs": agg.runs, "counters": agg.counters, "violations": viols}));
+}
+
+pub fn alt_bin(tag: &str) -> String {
+    // sibling target directory of the running binary: <sim>/target/release/fatsim -> <sim>/target-<tag>/release/fatsim
+    let exe = std::env::current_exe().unwrap_or_default();
+    let sim = exe.parent().and_then(|p| p.parent()).and_then(|p| p.parent()).map(|p| p.to_path_buf()).unwrap_or_default();
+    sim.join(format!("target-{}", tag)).join("release").join("fatsim").to_string_lossy().to_string()
+}
